@@ -91,9 +91,9 @@ package main
 //@   all-calls io.WriteCloser.Write [write-error-exits C13] werr == nil
 // flag plumbing: every generator / front-end option is built from the flag it is documented for
 //@   all-calls builder.Optimize [flag-optimize-parser C10] optimize == atcall(*optimizeParserFlag)
-//@   all-calls builder.BasicLatinLookupTable [flag-optimize-basic-latin C15] x == atcall(*optimizeBasicLatinFlag)
-//@   all-calls builder.SupportLeftRecursion [flag-support-left-recursion C07 C08] x == atcall(*supportLeftRecursion)
-//@   all-calls builder.Nolint [flag-nolint C04] x == atcall(*nolint)
-//@   all-calls builder.ReceiverName [flag-receiver-name C04] nm == atcall(*recvrNmFlag)
-//@   all-calls ast.Optimize [flag-optimize-grammar C09] atcall(*optimizeGrammar) && !atcall(*noBuildFlag)
-//@   all-calls builder.BuildParser [flag-x C13] !atcall(*noBuildFlag)
+//@   all-calls builder.BasicLatinLookupTable [flag-optimize-basic-latin C15 C10] x == atcall(*optimizeBasicLatinFlag)
+//@   all-calls builder.SupportLeftRecursion [flag-support-left-recursion C07 C08 C10] x == atcall(*supportLeftRecursion)
+//@   all-calls builder.Nolint [flag-nolint C04 C10] x == atcall(*nolint)
+//@   all-calls builder.ReceiverName [flag-receiver-name C04 C10] nm == atcall(*recvrNmFlag)
+//@   all-calls ast.Optimize [flag-optimize-grammar C09 C10] atcall(*optimizeGrammar) && !atcall(*noBuildFlag)
+//@   all-calls builder.BuildParser [flag-x C13 C10] !atcall(*noBuildFlag)
